@@ -81,6 +81,7 @@ use adf_bdd::adf::Adf;
 use adf_bdd::adfbiodivine::Adf as BdAdf;
 
 use adf_bdd::parser::AdfParser;
+use clap::builder::TypedValueParser;
 use clap::Parser;
 use crossbeam_channel::unbounded;
 use strum::VariantNames;
@@ -134,7 +135,7 @@ struct App {
     #[arg(long = "stmng")]
     stable_ng: bool,
     /// Choose which heuristics shall be used by the nogood-learning approach
-    #[arg(long, value_parser = clap::builder::PossibleValuesParser::new(adf_bdd::adf::heuristics::Heuristic::VARIANTS.iter().filter(|&v| v != &"Custom").collect::<Vec<_>>()))]
+    #[arg(long, value_parser = clap::builder::PossibleValuesParser::new(adf_bdd::adf::heuristics::Heuristic::VARIANTS.iter().filter(|&v| v != &"Custom").collect::<Vec<_>>()).map(|name| name.parse::<adf_bdd::adf::heuristics::Heuristic<'static>>().expect("only the names of existing heuristics are possible values")))]
     heu: Option<adf_bdd::adf::heuristics::Heuristic<'static>>,
     /// Compute the two valued models with the nogood-learning based approach
     #[arg(long = "twoval")]
